@@ -288,6 +288,13 @@ def run(idx, rep, tier):
             if not uses:
                 continue
             construct = f"{getattr(fi, 'rule', None).role if getattr(fi, 'rule', None) else fi.short}:{name}"
+            # the argsort of values that are already ascending (the output of eigh) is the identity: whatever it is applied to, or not
+            # applied to, nothing moves
+            src_calls = [v_ for v_, p_, st_ in df.assignments(fi.node).get(name, []) if isinstance(v_, ast.Call) and v_.args]
+            arg_orders = {a_[1] for c_ in src_calls for a_ in od.spec_alts(od.eval_in(fi, c_.args[0]))}
+            if src_calls and arg_orders == {ASC_ALG} and all(df.is_xnp_call(c_) == "argsort" and not any(k_.arg == "descending" for k_ in c_.keywords) for c_ in src_calls):
+                rep.proved("paired-permutation", construct, f"`{name}` sorts values that are already in ascending order: the identity permutation", locs=[idx.loc(fi.module, fi.node)])
+                continue
             vec_uses = [u for u in uses if u[0] == "vec"]
             col_uses = [u for u in uses if u[0] == "col"]
             bad = [u for u in uses if u[0] in ("row", "other")]
